@@ -41,14 +41,16 @@ def main():
         pdb = PDB(F)
         ctx = Ctx(pdb, Report("X", "quick", "other"), "quick")
         names = sorted({x["f"] for x in recs})
-        summ, refused = {}, {}
+        summ, refused, obls = {}, {}, {}
         arr = agg(("array",), [atom("a%d" % i, "u32") for i in range(6)])
         for nm in names:
             try:
                 if nm == "z_text":
                     summ[nm] = ctx.summ(nm, [("v", atom("text", "str"))], contracts={}).ret
                 else:
-                    summ[nm] = ctx.summ(nm, [("v", arr)], contracts={}).ret
+                    sm_ = ctx.summ(nm, [("v", arr)], contracts={})
+                    summ[nm] = sm_.ret
+                    obls[nm] = [o for o in sm_.obligations if not (o.cond[0] == "c" and o.cond[1])]
             except Uncertified as u:
                 refused[nm] = u.what
             except Exception as e:
@@ -62,6 +64,22 @@ def main():
                 continue
             env = {"text": C(TEXTS[x["t"]], "str"), "$str": StrModel.handler} if nm == "z_text" else {"a%d" % i: v for i, v in enumerate(x["in"])}
             try:
+                pan = False
+                for o in obls.get(nm, []):
+                    try:
+                        if all(cval(evaluate(pdb, c, env)) for c in o.pc) and not cval(evaluate(pdb, o.cond, env)):
+                            pan = True
+                            break
+                    except (IndexError, ZeroDivisionError, KeyError, TypeError):
+                        pan = True
+                        break
+                if pan or x["out"] == "panic":
+                    n += 1
+                    if not (pan and x["out"] == "panic"):
+                        bad += 1
+                        if len(examples) < 12:
+                            examples.append((nm, x.get("in"), "engine predicts %s, the real function %s" % ("a panic" if pan else "no panic", "panics" if x["out"] == "panic" else "returns")))
+                    continue
                 got = evaluate(pdb, summ[nm], env)
                 gotv = [cval(e) for e in got[2]]
             except Uncertified as u:
